@@ -462,7 +462,50 @@ def build_subject(subject, init):
         members = [T["TensorDict"](mk_val(init, (BS,)), batch_size=[BS]) for _ in range(2)]
         return T["lazy_stack"](members, 0)
     SHAPE[0] = (BS,)
-    return T["TensorDict"](mk_val(init), batch_size=[BS])
+    td = T["TensorDict"](mk_val(init), batch_size=[BS])
+    if subject == "tc":
+        # a tensordict held by a tensorclass: operated on through `holder.n`, additionally read through the holder
+        if "TC" not in T:
+            from tensordict import TensorDict as _TD
+
+            @T["tensorclass"]
+            class HolderTC:
+                n: _TD
+            T["TC"] = HolderTC
+        HOLDER[0] = T["TC"](n=td, batch_size=[BS])
+        return HOLDER[0].n
+    return td
+
+
+HOLDER = [None]
+
+
+def oracle_holder(ref, td, probes, fail):
+    """tensorclass-held subject: what the tensorclass API shows under the field name is the held tensordict"""
+    h = HOLDER[0]
+    if h.get("n") is not td:
+        h.set("n", td)
+    r = call(lambda: sorted(keyl(k)[1:] for k in h.keys(True, True) if keyl(k)[0] == "n"))
+    want = sorted(list(p) for p, _ in r_view(ref, True, True, "d"))
+    if r[0] != "ok" or r[1] != want:
+        fail("holder-keys", {"view": "tensorclass.keys(True, True)"}, {"got": r[1], "want": want}, {"call": "tensorclass.keys", "pattern": "key-set"})
+    for (kj, _) in probes:
+        p = strings_of(key_unjson(kj))
+        if p is None:
+            continue
+        try:
+            v = r_get(ref, p)
+        except Unspec:
+            continue
+        k = ("n", key_unjson(kj))
+        c = call(lambda: k in h.keys(True))
+        g = call(lambda: h.get(k))
+        if c[0] != "ok" or bool(c[1]) != (v is not MISSING):
+            fail("holder-contains", {"key": kj}, {"got": c[1], "present": v is not MISSING}, {"call": "tensorclass.keys.__contains__", "pattern": "presence"})
+        got = None if g[0] != "ok" else (["none"] if g[1] is None else summ(g[1]))
+        want_g = ["none"] if v is MISSING else val_json(v)
+        if got is None or not (got == want_g if ["none"] in (got, want_g) else cmp_unordered(got, want_g)):
+            fail("holder-get", {"key": kj}, {"got": got if got is not None else g[1], "want": want_g}, {"call": "tensorclass.get", "pattern": "value"})
 
 
 def exc_enum(e):
@@ -981,6 +1024,29 @@ def unordered_key(j):
     return [j[0], j[1]]
 
 
+PROVED_KINDS = {"set", "setitem", "del", "delitem", "pop", "rename", "update", "setdefault", "clear", "filter_empty"}
+
+
+def theorem_scope(op):
+    """which theorem of coq/Props/C04.v speaks about this operation (mirrors abs_op / in_scope / in_scope_remaining)"""
+    ks = op_keys(op)
+    ps = [strings_of(key_unjson(k)) for k in ks]
+    if any(p is None for p in ps):
+        return "outside:invalid-key"
+    name = op["op"]
+    if name in PROVED_KINDS:
+        if name == "rename" and len(ps[0]) < len(ps[1]) and ps[1][:len(ps[0])] == ps[0]:
+            return "refuted:D42-region"
+        return "proved:C04_refine_step"
+    if name == "flatten" and op["inplace"]:
+        return "refuted:D24-region"
+    if name in ("select", "exclude", "split") and prefix_related(ps):
+        return "outside:prefix-related-keys"
+    if name == "select" and not op["strict"]:
+        return "outside:non-strict-select"
+    return "stated-not-proved:C04_refine_step_remaining_statement"
+
+
 def op_signature(op, ref):
     """decidable pattern of an operation relative to the reference state (signature of findings)"""
     name = op["op"]
@@ -1083,6 +1149,8 @@ def run_history1(args):
 
         if op is not None:
             hist[op["op"]] = hist.get(op["op"], 0) + 1
+            sc = "step-scope:" + theorem_scope(op)
+            hist[sc] = hist.get(sc, 0) + 1
             case["ops"].append({"op": op})
             # expectation from the reference (before running the implementation)
             try:
@@ -1160,6 +1228,8 @@ def run_history1(args):
         obs = observe(td, [tuple(f) for f in flags], [(k, tuple(f)) for k, f in probes])
         st["obs"] = obs
         oracle_views(ref, obs, [tuple(f) for f in flags], [(k, tuple(f)) for k, f in probes], fail, None)
+        if subject == "tc":
+            oracle_holder(ref, td, [(k, tuple(f)) for k, f in probes], fail)
         steps.append(st)
     return {"case": case, "steps": steps, "fails": fails, "hist": hist}
 
@@ -1259,13 +1329,20 @@ FIELDS = ["outcome", "return", "results", "state", "continued-state", "views", "
 # main
 # =========================================================================================================
 def main(R):
-    R.rule = ("a case is one history (initial tree + operation list with spelled keys + observation requests); distinct by its "
-              "content; non-trivial when it has >= 3 operations of >= 2 kinds and at least one nested key")
+    R.rule = ("a case is one history (subject kind + initial tree + operation list with spelled keys + observation requests: "
+              "4 (quick) / 8 (thorough) of the 16 include_nested x leaves_only x sort x is_leaf combinations and as many "
+              "membership/get probes after every step); distinct by its content; non-trivial when it has >= 3 operations of "
+              ">= 2 kinds and at least one nested key. input_distribution counts operations by kind, by what the oracle "
+              "expects (expect:*), by the theorem that covers them (step-scope:*) and histories by subject")
     R.assumptions = [
         "leaves are batch-[2] int64 tensors / NonTensorData strings holding distinct small integers (identity of values)",
         "paths through a NON-TENSOR leaf are never generated (NonTensorData keeps a hidden storage; outside the model)",
         "after every step the oracle's reference is re-read from the raw storage (_tensordict), so one divergence is reported once",
         "order of keys is compared with the model only; the oracle compares key sets / pair sets / sortedness",
+        "model correspondence: TensorDict subject only; lazy stacks (homogeneous, tensor leaves, restricted operation set) "
+        "and tensorclass-held tensordicts are checked by the oracle only",
+        "lazy stacks: update / unflatten_keys / in-place select, exclude, flatten_keys / split_keys / filter_empty_ are not "
+        "drawn (further divergences of _lazy.py seen while building were not triaged, see notes/C04-selftest.md)",
     ]
     R.trusted = ["harness/c04.py r_* functions: the plain nested-dict replay (oracle)",
                  "harness/cext.py: g++ rebuild of tensordict/csrc from the working tree, loaded as tensordict._C"]
@@ -1284,6 +1361,7 @@ def main(R):
                 corpus.append((0, 0, R.quick, cj.get("subject", "td"), cj))
     nl = 150 if R.quick else 3000
     jobs += [(R.rng.getrandbits(48), 16, R.quick, "lazy", None) for _ in range(nl)]
+    jobs += [(R.rng.getrandbits(48), 16, R.quick, "tc", None) for _ in range(100 if R.quick else 2000)]
     jobs = corpus + jobs
     import multiprocessing as mp
     ctx = mp.get_context("fork")
